@@ -32,7 +32,7 @@ AXIOMS_OK = FLOAT_AXIOMS
 # second tie to the code (tools/py2coq.py + coq/theories/GenProofs): the comparators the archive calls are translated
 # from the source on every run and proved equal to Model/Dominance.v
 from harness.core import translated_specs
-TRANSLATED = translated_specs("DominanceGen", "EpsDominanceGen")
+TRANSLATED = translated_specs("DominanceGen", "EpsDominanceGen", "ArchiveGen")
 TRUSTED = [
     "Coq 8.16.1 kernel, vm_compute for model evaluation (no native_compute)",
     "FloatAxioms.ltb_spec / eqb_spec and the primitive float operations (standard library) for the float order instance",
